@@ -22,7 +22,9 @@ def num(x):
 
 def check_numeric(ob):
     label, kind, lhs, rhs = ob
+    if lhs is None or rhs is None: return False
     lhs, rhs = float(lhs), float(rhs)
+    if lhs != lhs or rhs != rhs: return False          # NaN
     tol = ATOL + RTOL * max(abs(lhs), abs(rhs))
     if kind == 'eq': return abs(lhs - rhs) <= tol
     if kind == 'ge': return lhs >= rhs - tol
@@ -50,7 +52,7 @@ def build_and_compare(d, M, T):
         if not ok: bad.append((label, what if isinstance(what, str) else what()))
     def P(ob, where):
         if not check_numeric(ob):
-            bad.append((ob[0], '%s: code %r, geometry %r' % (where, float(ob[2]), float(ob[3]))))
+            bad.append((ob[0], '%s: code %r, geometry %r' % (where, ob[2] if ob[2] is None else float(ob[2]), ob[3] if ob[3] is None else float(ob[3]))))
     summary = GB.compare(ex, geo, grid, blockmap, S, P)
     return bad, summary
 
@@ -65,6 +67,11 @@ def replay(d):
             return True, 'the real code raises %s: %s' % (type(ex).__name__, ex)
         import traceback
         return False, 'replay raised %s: %s\n%s' % (type(ex).__name__, ex, traceback.format_exc()[-1500:])
+    if d['label'].startswith('no exception'):
+        # the symbolic run met an exception; a symbolic division by zero is a NaN / inf in numpy
+        nonfinite = [b for b in bad if 'nan' in b[1] or 'inf' in b[1]]
+        if nonfinite:
+            return True, 'no exception concretely, but non-finite values (numpy division by zero): %s: %s' % nonfinite[0]
     hit = [b for b in bad if b[0] == d['label']]
     if hit:
         return True, '%s: %s' % hit[0] + ('' if len(bad) == 1 else ' (+%d other failing obligations)' % (len(bad) - 1))
